@@ -274,7 +274,9 @@ def execute(ctx, plan, prop):
     def can_add(n=1):
         """A further ball may be requested only while the machine has one to give: the workload keeps the game's
         balls_in_play in step with its requests, which is only meaningful without over-subscription."""
-        if m.game is None:
+        if m.game is None or m.game.balls_in_play < 1:
+            # no ball in progress (e.g. the game waits for the playfield to become empty before its first ball): raising
+            # balls_in_play by hand would not be a request a game can make
             return False
         if plan.get("oversub"):
             # at most two requests beyond what the machine holds
